@@ -89,17 +89,17 @@ def encTables (E : Beap.Env Nat) (s : Beap.St Nat) : List Sexp :=
     .list (nts.map fun nt => .list ((s.emptiesOf nt).map ofNat)),
     .list (s.deleted.map encProg) ]
 
-def mkEnv (gr recursive rej : Sexp) : Option (Beap.Env Nat) := do
+def mkEnv (gr recursive rej : Sexp) (fix : Bool := false) : Option (Beap.Env Nat) := do
   let (G, W) ← decGrammar gr
   let rejected ← allSome decProg (← rej.list?)
-  pure { G := G, W := W, filter := fun p => !rejected.contains p, recursive := ← recursive.bool? }
+  pure { G := G, W := W, filter := fun p => !rejected.contains p, recursive := ← recursive.bool?, fixEmptied := fix }
 
-/-- `(beap.run grammar recursive rejected script fuel)` →
+/-- `(beap.run grammar recursive rejected script fuel fixEmptied)` (`fixEmptied`: the implementation has the fix C12-F6) →
     `(ok steps costLists banks queues empties deleted spec sorted)`; `sorted` = `Beap.sortedB` of the final
     `_cost_lists[start]`; `spec` = for every yielded program
     `(member cost)` by the specification (`G.gen`, `Beap.costOf`) -/
-def handleRun (gr recursive rej script fuel : Sexp) : Option Sexp := do
-  let E ← mkEnv gr recursive rej
+def handleRun (gr recursive rej script fuel fix : Sexp) : Option Sexp := do
+  let E ← mkEnv gr recursive rej (← fix.bool?)
   let acts ← allSome decAct (← script.list?)
   let fuel ← fuel.nat?
   match runScript E fuel acts (Beap.Gen.new E.G) [] [] with
@@ -124,7 +124,7 @@ def handleInit (gr recursive fuel : Sexp) : Option Sexp := do
        ofBool (Beap.minCostOK E s), ofBool (Beap.stableB E s)]))
 
 def handle : Sexp → Option Sexp
-  | .list [.atom "beap.run", gr, recursive, rej, script, fuel] => handleRun gr recursive rej script fuel
+  | .list [.atom "beap.run", gr, recursive, rej, script, fuel, fix] => handleRun gr recursive rej script fuel fix
   | .list [.atom "beap.init", gr, recursive, fuel] => handleInit gr recursive fuel
   | _ => none
 
